@@ -1,12 +1,183 @@
 (* C05 - Router: multi-hop equals composition, estimates equal execution, limits hold.
-   Property theorems only; each is closed by a lemma of C05/Proofs.v. *)
-From Coq Require Import ZArith List Bool.
+   Property theorems only; each is closed by a lemma of C05/Proofs.v (parametric in the pool interface P; where the
+   two pool laws are needed they appear as the hypothesis [PoolLaws P], which is PROVED for the concrete pool
+   C05/Instance.v CP - see the instantiated corollaries and the runnable examples at the end - and measured on the
+   real balancer / stableswap / concentrated pools by the correspondence run). *)
+From Coq Require Import ZArith List Bool Lia.
 Import ListNotations.
-From Osmo Require Import C05.Model C05.Proofs.
+From Osmo Require Import C05.Model C05.Proofs C05.Instance.
 Open Scope Z_scope.
 
-(* limits, exact-in: a routed swap that succeeds delivers at least the caller's minimum (for every pool interface) *)
-Theorem C05_min_out : forall P route s sender dIn amt minOut s' out,
-  route_exact_in P s sender route dIn amt minOut = Ok (s', out) -> minOut <= out /\ 0 < out.
-Proof. exact route_in_min_out. Qed.
-Print Assumptions C05_min_out.
+(* ------------------------------------------------------------------ multi-hop = composition (exact-in) *)
+(* the routed result is the left fold of "taker fee, then the pool's swap" over the hops, with the caller's minimum on
+   the last hop only and 1 before *)
+Theorem C05_route_in_eq_fold : forall P route s sender dIn amt minOut, route <> [] ->
+  route_exact_in P s sender route dIn amt minOut =
+  match fold_left (in_step P sender) (combine route (hop_mins route minOut)) (Ok (s, (dIn, amt))) with
+  | Err e => Err e
+  | Ok (s', (_, out)) => Ok (s', out)
+  end.
+Proof. exact route_in_eq_fold. Qed.
+Print Assumptions C05_route_in_eq_fold.
+
+(* ... and, at message level: a multi-hop MsgSwapExactAmountIn is exactly the single-hop message for the first hop
+   followed by the message for the rest of the route fed with the first hop's output (any pools, repeated or not) *)
+Theorem C05_route_in_compose : forall P s sender h rest dIn amt minOut, rest <> [] -> 0 < minOut ->
+  handle P s (MSwapIn sender (h :: rest) dIn amt minOut) =
+  match handle P s (MSwapIn sender [h] dIn amt 1) with
+  | Err e => Err e
+  | Ok (s1, out) => handle P s1 (MSwapIn sender rest (snd h) out minOut)
+  end.
+Proof. exact swap_in_msg_compose. Qed.
+Print Assumptions C05_route_in_compose.
+
+(* ------------------------------------------------------------------ multi-hop = composition (exact-out) *)
+(* the routed result is: the backward pre-computation of the required inputs (createMultihopExpectedSwapOuts), then
+   the left fold over the hops of "swap for the next hop's required input with the per-hop maximum, then the taker fee
+   on top"; the amount returned is the first hop's *)
+Theorem C05_route_out_eq_fold : forall P, PoolLaws P -> forall route s sender maxIn dOutF amtF, route <> [] ->
+  match exp_ins_val P s route dOutF amtF with
+  | Err e => route_exact_out P s sender route maxIn dOutF amtF = Err e
+  | Ok ins =>
+    match fold_left (out_step P sender) (out_hops true route (maxIn :: tl ins) dOutF amtF) (Ok (s, [])) with
+    | Err e => route_exact_out P s sender route maxIn dOutF amtF = Err e
+    | Ok (s', ts) => route_exact_out P s sender route maxIn dOutF amtF = Ok (s', hd 0 ts)
+    end
+  end.
+Proof. exact route_out_eq_fold. Qed.
+Print Assumptions C05_route_out_eq_fold.
+
+(* ------------------------------------------------------------------ split = sum of the legs *)
+Theorem C05_split_in_eq_sum : forall P s sender legs dIn minOut s' total,
+  split_exact_in P s sender legs dIn minOut = Ok (s', total) <->
+  validate_split last_denom (map fst legs) = true /\
+  exists outs, fold_left (leg_in_step P sender dIn) legs (Ok (s, [])) = Ok (s', outs) /\
+               total = zsum outs /\ 0 < total /\ minOut <= total.
+Proof. exact split_in_eq_sum. Qed.
+Print Assumptions C05_split_in_eq_sum.
+
+Theorem C05_split_out_eq_sum : forall P s sender legs dOut maxIn s' total,
+  split_exact_out P s sender legs dOut maxIn = Ok (s', total) <->
+  validate_split first_denom (map fst legs) = true /\
+  exists ins, fold_left (leg_out_step P sender dOut) legs (Ok (s, [])) = Ok (s', ins) /\
+              total = zsum ins /\ 0 < total /\ total <= maxIn.
+Proof. exact split_out_eq_sum. Qed.
+Print Assumptions C05_split_out_eq_sum.
+
+(* a leg (internal minimum 0) is the same as a routed swap with minimum 1 *)
+Theorem C05_split_leg_is_routed_swap : forall P route s sender dIn amt,
+  route_exact_in P s sender route dIn amt 0 = route_exact_in P s sender route dIn amt 1.
+Proof. exact route_in_min01. Qed.
+Print Assumptions C05_split_leg_is_routed_swap.
+
+(* ------------------------------------------------------------------ estimate = execution *)
+(* FULL statement of the property (every sender, whitelisted or not): *)
+Definition C05_estimate_full : Prop :=
+  forall P, PoolLaws P -> forall route s sender dIn amt minOut s' out,
+    NoDup (map fst route) ->
+    route_exact_in P s sender route dIn amt minOut = Ok (s', out) ->
+    estimate_in P s route dIn amt = (s, Ok out).
+
+(* PROVED PART: senders that pay exactly the fees of the taker-fee table ([fee_neutral]: not on the reduced-fee
+   whitelist, or all taker fees zero).  Missing for the full statement: whitelisted senders under a non-zero taker
+   fee - for them the statement is FALSE (next theorem; known finding C05-F2). *)
+Theorem C05_estimate_in_eq_execute_partial : forall P, PoolLaws P -> forall route s sender dIn amt minOut s' out,
+  NoDup (map fst route) -> fee_neutral P s sender ->
+  route_exact_in P s sender route dIn amt minOut = Ok (s', out) ->
+  estimate_in P s route dIn amt = (s, Ok out).
+Proof. exact estimate_in_eq_execute. Qed.
+Print Assumptions C05_estimate_in_eq_execute_partial.
+
+(* exact-out: no "each pool at most once" hypothesis is needed (the charged amount is fixed by the first executed
+   hop, which runs on the state the estimate saw) *)
+Theorem C05_estimate_out_eq_execute_partial : forall P, PoolLaws P -> forall route s sender maxIn dOutF amtF s' t,
+  fee_neutral P s sender ->
+  route_exact_out P s sender route maxIn dOutF amtF = Ok (s', t) ->
+  estimate_out P s route dOutF amtF = (s, Ok t).
+Proof. exact estimate_out_eq_execute. Qed.
+Print Assumptions C05_estimate_out_eq_execute_partial.
+
+(* the estimates leave the state unchanged - always *)
+Theorem C05_estimate_pure : forall P, PoolLaws P -> forall route s d amt,
+  fst (estimate_in P s route d amt) = s /\ fst (estimate_out P s route d amt) = s.
+Proof. intros; split; [apply estimate_in_pure|apply estimate_out_pure]; assumption. Qed.
+Print Assumptions C05_estimate_pure.
+
+(* REFUTED: the full statement fails for a sender on the reduced-fee whitelist (finding C05-F2; replayed on the real
+   code by corpus/C05/f2_whitelisted_estimate.json): three hops, taker fees 0.15 % / 1 % / 0 - the estimate says 2951,
+   the whitelisted execution delivers 2985 *)
+Definition wl_route : list (Z * Z) := [(1, 2); (2, 3); (3, 4)].
+Lemma nodup_wl_route : NoDup (map fst wl_route).
+Proof. repeat constructor; cbn; intuition discriminate. Qed.
+Lemma res_val_ok : forall (r : result (state CP * Z)) v, res_val r = v -> v <> -1 -> exists s', r = Ok (s', v).
+Proof. intros [[s' x]|e] v H N; simpl in H; [exists s'; congruence|congruence]. Qed.
+
+Theorem C05_estimate_full_refuted : ~ C05_estimate_full.
+Proof.
+  intro H.
+  destruct (res_val_ok (route_exact_in CP ex_state (Trader 7) wl_route 1 10000 1) 2985) as [s' E];
+    [vm_compute; reflexivity|discriminate|].
+  specialize (H CP CP_laws wl_route ex_state (Trader 7) 1 10000 1 s' 2985 nodup_wl_route E).
+  apply (f_equal snd) in H. vm_compute in H. discriminate H.
+Qed.
+Print Assumptions C05_estimate_full_refuted.
+
+(* REFUTED (documented reason for the "each pool at most once" restriction): through the same pool twice, the
+   execution's second hop sees the reserves the first hop left, the estimate does not - even for a fee-neutral sender *)
+Theorem C05_estimate_repeated_pool_refuted :
+  ~ (forall route s sender dIn amt minOut s' out, fee_neutral CP s sender ->
+       route_exact_in CP s sender route dIn amt minOut = Ok (s', out) ->
+       estimate_in CP s route dIn amt = (s, Ok out)).
+Proof.
+  intro H.
+  destruct (res_val_ok (route_exact_in CP ex_state (Trader 0) [(1, 2); (1, 1)] 1 100000 1) 99702) as [s' E];
+    [vm_compute; reflexivity|discriminate|].
+  specialize (H [(1, 2); (1, 1)] ex_state (Trader 0) 1 100000 1 s' 99702 (or_introl eq_refl) E).
+  apply (f_equal snd) in H. vm_compute in H. discriminate H.
+Qed.
+Print Assumptions C05_estimate_repeated_pool_refuted.
+
+(* ------------------------------------------------------------------ limits *)
+(* every message: success respects the caller's limit; failure leaves the whole state unchanged (baseapp atomicity) *)
+Theorem C05_limits : forall P s m s' r, step P s m = (s', r) ->
+  match r with
+  | Ok v => match m with
+            | MSwapIn _ _ _ _ minOut => minOut <= v
+            | MSwapOut _ _ maxIn _ _ => v <= maxIn
+            | MSplitIn _ _ _ minOut => minOut <= v
+            | MSplitOut _ _ _ maxIn => v <= maxIn
+            end
+  | Err _ => s' = s
+  end.
+Proof. exact step_limits. Qed.
+Print Assumptions C05_limits.
+
+(* ------------------------------------------------------------------ the laws hold for a concrete executable pool *)
+Theorem C05_cp_laws : PoolLaws CP.
+Proof. exact CP_laws. Qed.
+Print Assumptions C05_cp_laws.
+
+Theorem C05_cp_estimate_in_eq_execute : forall route s sender dIn amt minOut s' out,
+  NoDup (map fst route) -> fee_neutral CP s sender ->
+  route_exact_in CP s sender route dIn amt minOut = Ok (s', out) -> estimate_in CP s route dIn amt = (s, Ok out).
+Proof. exact (estimate_in_eq_execute CP CP_laws). Qed.
+Print Assumptions C05_cp_estimate_in_eq_execute.
+
+(* non-vacuity, by running the model: a three-hop exact-in route with three different taker fees executes and the
+   estimate agrees; a two-hop exact-out route executes, estimate agrees, a maximum between the pool's input and the
+   fee-inclusive total is refused (the repaired C05-F1); a split route is the sum of its legs *)
+Example C05_nonvacuous :
+  NoDup (map fst wl_route) /\ fee_neutral CP ex_state (Trader 0) /\
+  res_val (route_exact_in CP ex_state (Trader 0) wl_route 1 10000 2951) = 2951 /\
+  res_err (route_exact_in CP ex_state (Trader 0) wl_route 1 10000 2952) = Some ELimit /\
+  snd (estimate_in CP ex_state wl_route 1 10000) = Ok 2951 /\
+  res_val (route_exact_out CP ex_state (Trader 0) [(1, 1); (2, 2)] 4223 3 5000) = 4223 /\
+  snd (estimate_out CP ex_state [(1, 1); (2, 2)] 3 5000) = Ok 4223 /\
+  res_err (route_exact_out CP ex_state (Trader 0) [(1, 1); (2, 2)] 4222 3 5000) = Some ELimit /\
+  res_val (split_exact_in CP ex_state (Trader 0) [([(1, 2); (2, 3)], 10000); ([(4, 3)], 20000)] 1 37426) = 37426 /\
+  res_val (route_exact_in CP ex_state (Trader 0) [(1, 2); (2, 3)] 1 10000 1) = 11824 /\
+  res_val (split_exact_out CP ex_state (Trader 0) [([(1, 1); (2, 2)], 5000); ([(4, 1)], 7000)] 3 9681) = 9681.
+Proof.
+  split; [exact nodup_wl_route|]. split; [left; reflexivity|].
+  repeat split; vm_compute; reflexivity.
+Qed.
